@@ -797,3 +797,97 @@ def range_arg(body, op):
 def array_len_of_ty(ty):
     m = re.search(r'\[[^;\[\]]+; (\d+)\]', ty)
     return int(m.group(1)) if m else None
+
+
+# ------------------------------------------------ closure <-> creator linking
+def closure_creation_sites(F, cb):
+    """(parent body, block, stmt, aggregate rvalue, closure local) where closure cb is built."""
+    out = []
+    par = F.get(cb.parent) if cb.parent in F.bodies else None
+    cands = [par] if par is not None else []
+    if not cands:
+        cands = [b for b in F.fns() if b.key == cb.root]
+    for pb in cands:
+        for b in sorted(pb.live_blocks()):
+            for st in pb.stmts(b):
+                rv = st['rv']
+                if rv['k'] == 'agg' and rv.get('closure') == cb.key:
+                    out.append((pb, b, st, rv, st['lhs']['l']))
+    return out
+
+
+def closure_consumers(F, cb):
+    """Calls in the parent that receive the closure (possibly through moves / refs):
+    [(parent body, Call, index of the closure argument)]."""
+    out = []
+    for (pb, b, st, rv, cl) in closure_creation_sites(F, cb):
+        S = {cl}
+        for _ in range(5):
+            for bb in sorted(pb.live_blocks()):
+                for s2 in pb.stmts(bb):
+                    r2 = s2['rv']
+                    if s2['lhs']['p']:
+                        continue
+                    if r2['k'] == 'use' and is_place(r2['a']) and op_local(r2['a']) in S:
+                        S.add(s2['lhs']['l'])
+                    elif r2['k'] == 'ref' and r2['pl']['l'] in S:
+                        S.add(s2['lhs']['l'])
+        for c in pb.calls():
+            for i, a in enumerate(c.args):
+                if is_place(a) and op_local(a) in S:
+                    out.append((pb, c, i))
+    return out
+
+
+def upvar_operand(F, cb, field_index):
+    """Creator-side operand captured as environment field `field_index` of closure cb."""
+    for (pb, b, st, rv, cl) in closure_creation_sites(F, cb):
+        if field_index < len(rv['ops']):
+            return pb, rv['ops'][field_index]
+    return None, None
+
+
+def env_field_of(place):
+    """For a place rooted at the closure environment (_1): index of the captured field."""
+    if place['l'] != 1:
+        return None
+    for e in place['p']:
+        if isinstance(e, dict) and 'f' in e:
+            return e['f']
+    return None
+
+
+def deep_calls(F, body, ops, depth=0, seen=None, follow_mutarg=False):
+    """Calls in the backward slice of `ops`, continued through closure parameters (to the
+    receiver of the combinator the closure is handed to) and captured variables (to the
+    creator's operand).  Returns a list of Call objects (from several bodies)."""
+    if seen is None:
+        seen = set()
+    sl = backward_slice(body, ops, follow_mutarg=follow_mutarg)
+    out = list(sl.calls)
+    if body.kind == 'Closure' and depth < 5:
+        # parameters other than the environment
+        if any(p >= 2 for p in sl.params):
+            for (pb, c, idx) in closure_consumers(F, body):
+                k = (pb.key, c.b, 'p')
+                if k in seen:
+                    continue
+                seen.add(k)
+                out.append(c)
+                others = [a for i, a in enumerate(c.args) if i != idx]
+                out.extend(deep_calls(F, pb, others, depth + 1, seen, follow_mutarg))
+        if 1 in sl.params:
+            fields = set()
+            for pl in sl.places:
+                f = env_field_of(pl)
+                if f is not None:
+                    fields.add(f)
+            for f in fields:
+                pb, op = upvar_operand(F, body, f)
+                if pb is not None and op is not None:
+                    k = (pb.key, f, body.key)
+                    if k in seen:
+                        continue
+                    seen.add(k)
+                    out.extend(deep_calls(F, pb, [op], depth + 1, seen, follow_mutarg))
+    return out
